@@ -328,8 +328,8 @@ def _feed(res: C.Result, cases: List[Dict[str, Any]], start: int):
     return out
 
 
-def _feed_ctx(res: C.Result, deep: bool):
-    hs = VC.ctx_histories(8 if deep else 6)
+def _feed_ctx(res: C.Result, deep: bool, extra=()):
+    hs = list(extra) + VC.ctx_histories(8 if deep else 6)
     lines: List[str] = []
     meta = {}
     for i, evs in enumerate(hs):
@@ -355,8 +355,24 @@ def _feed_ctx(res: C.Result, deep: bool):
         res.sample({"protocol": meta["x%d" % (len(hs) // 2)][1]})
 
 
+def _corpus():
+    """minimised past failures (corpus/C09/*.json), replayed first on every run"""
+    import json
+    cs, ctx = [], []
+    d = C.CORPUS / PROP
+    for f in sorted(d.glob("*.json")) if d.exists() else []:
+        body = json.loads(f.read_text())["case"]
+        if "ctx" in body:
+            ctx.append(body["ctx"])
+        else:
+            cs.append(pickle.loads(base64.b64decode(body["case"]["pickle"])))
+    return cs, ctx
+
+
 def run(res: C.Result, deep: bool):
-    cases = gen_cases(res.seed, deep)
+    ccases, cctx = _corpus()
+    res.extra["corpus_cases"] = len(ccases) + len(cctx)
+    cases = ccases + gen_cases(res.seed, deep)
     res.rule = ("A: every scalar field (top level and through nested structs / struct arrays) x boundary and wrong-type pool; "
                 "B: every index -n-1..n of every array x element pool; C: one bad element at every position of arrays of "
                 "length 1..6 (floats also surrounded by / next to NaN); D: every slice (start, stop, step) shape of three "
@@ -367,7 +383,7 @@ def run(res: C.Result, deep: bool):
                 "distinct by (class, path, field, key, value, enabled, prefill)" % (8 if deep else 6))
     for i in range(0, len(cases), 20000):
         _feed(res, cases[i:i + 20000], i)
-    _feed_ctx(res, deep)
+    _feed_ctx(res, deep, cctx)
 
 
 def replay(body: Dict[str, Any]) -> int:
